@@ -203,7 +203,13 @@ type FuncResult struct {
 }
 
 func (eng *Engine) buildVC(fn *ssa.Function, ct *Contract) (vc *VC, err error) {
+	return eng.buildVCq(fn, ct, 0)
+}
+
+// buildVCq with qf > 0 builds the quantifier-free candidate-search rendering (never used to discharge).
+func (eng *Engine) buildVCq(fn *ssa.Function, ct *Contract, qf int) (vc *VC, err error) {
 	vc = newVC(eng, fn, ct)
+	vc.qf = qf
 	defer func() {
 		if r := recover(); r != nil {
 			switch e := r.(type) {
@@ -217,10 +223,14 @@ func (eng *Engine) buildVC(fn *ssa.Function, ct *Contract) (vc *VC, err error) {
 		}
 	}()
 	vc.emit(preludeBase)
+	if qf == 0 {
+		vc.emit(preludeQuant)
+	}
 	vc.emit("(assert (forall ((v Int)) (! (=> (> v 0) (= (root v) v)) :pattern ((root v)))))")
 	vc.emit("(assert (= (root 0) 0))")
 	f := &frame{vc: vc, fn: fn, contract: ct, vals: map[ssa.Value]Val{}, top: true}
 	f.entry = vc.baseState()
+	vc.entry = f.entry
 	f.st = f.entry
 	f.R = "true"
 	// parameters
@@ -230,6 +240,16 @@ func (eng *Engine) buildVC(fn *ssa.Function, ct *Contract) (vc *VC, err error) {
 		f.vals[p] = v
 		f.params = append(f.params, v)
 		f.assume(vc.typeFacts(n, p.Type(), f.entry))
+		if qf > 0 {
+			switch p.Type().Underlying().(type) {
+			case *types.Slice:
+				f.assume(and(sx("<=", sLen(n), num(int64(qf))), eq(sOff(n), "0"), sx("<=", sCap(n), num(int64(qf+2)))))
+			case *types.Basic:
+				if isString(p.Type()) {
+					f.assume(and(sx("<=", "0", sx("slen", n)), sx("<=", sx("slen", n), num(int64(qf)))))
+				}
+			}
+		}
 		if i == 0 && fn.Signature.Recv() != nil {
 			if _, ok := p.Type().Underlying().(*types.Pointer); ok {
 				f.assume(not(eq(n, "0")))
